@@ -34,6 +34,7 @@ import (
 	"math/big"
 	"math/rand"
 	"os"
+	"runtime/pprof"
 	"sort"
 	"strings"
 	"time"
@@ -80,7 +81,18 @@ type caseSpec struct {
 	Ids  []idSpec `json:"ids"`
 }
 
-const E = 3 // the measured epoch (epochs 0 .. E-1 build birthdays, inviter links and invitation stock)
+// the measured epoch of a case is the first one in which its age classes exist: epochs 0 .. E-1 build birthdays, inviter
+// links and the invitation stock (an identity of age class a < 3 is born in epoch E-a; an inviter that is not the god
+// address gets its invitation from the epoch block before that)
+func measuredEpoch(cs *caseSpec) int {
+	e := 1
+	for _, id := range cs.Ids {
+		if id.Age < 3 && id.Age+1 > e {
+			e = id.Age + 1
+		}
+	}
+	return e
+}
 
 var stOf = map[string]state.IdentityState{"U": state.Undefined, "C": state.Candidate, "N": state.Newbie, "V": state.Verified, "H": state.Human,
 	"S": state.Suspended, "Z": state.Zombie, "K": state.Killed}
@@ -197,6 +209,7 @@ type world struct {
 	out        *tr.W
 	hid        int
 	cs         *caseSpec
+	E          int // the measured epoch
 	n          int // identities 1..n
 	pool       int // key of the pool address (0 = none)
 	ext        int // key of the address without identity that may serve as pool
@@ -227,7 +240,7 @@ func consensus(upg int) *config.ConsensusConf {
 
 // timeline of an identity that exists since genesis (age class 3): its status in every epoch, given the status it must
 // have when the measured epoch starts and the epochs in which it has to hold an invitation (Verified / Human then)
-func oldTimeline(prev state.IdentityState, invEpochs []int) []state.IdentityState {
+func oldTimeline(E int, prev state.IdentityState, invEpochs []int) []state.IdentityState {
 	tl := make([]state.IdentityState, E+1)
 	last := -1
 	for _, e := range invEpochs {
@@ -257,7 +270,9 @@ func oldTimeline(prev state.IdentityState, invEpochs []int) []state.IdentityStat
 			for e := 0; e < E-1; e++ {
 				tl[e] = state.Verified
 			}
-			tl[E-1] = state.Suspended
+			if E >= 1 {
+				tl[E-1] = state.Suspended
+			}
 		}
 	}
 	return tl
@@ -272,12 +287,16 @@ func newWorld(seed int64, hid int, cs *caseSpec, out *tr.W, st *runStats) *world
 	sw.Cons.DelegationSwitchRange = 3
 	sw.Cons.StatusSwitchRange = 50
 	sw.Cons.InvitesPercent = 2.0
+	if rnd.Intn(2) == 0 {
+		sw.Cons.UnlockStakeAge = 2
+	}
 	sw.ValCfg.FlipLotteryDuration = 5 * time.Minute
 	sw.ValCfg.ShortSessionDuration = 2 * time.Minute
 	sw.ValCfg.LongSessionDuration = 10 * time.Minute
 	sw.ValCfg.ValidationInterval = 24 * time.Hour
 	sw.FirstCeremony = 1693666800
-	w := &world{w: sw, rnd: rnd, out: out, hid: hid, cs: cs, n: n, ext: n + 1, stran: n + 2, stats: st, nonce: map[int]uint32{}}
+	E := measuredEpoch(cs)
+	w := &world{w: sw, rnd: rnd, out: out, hid: hid, cs: cs, n: n, ext: n + 1, stran: n + 2, stats: st, nonce: map[int]uint32{}, E: E}
 	if cs.Pool > 0 {
 		w.pool = cs.Pool
 	} else {
@@ -300,7 +319,7 @@ func newWorld(seed int64, hid int, cs *caseSpec, out *tr.W, st *runStats) *world
 		prev := stOf[id.Prev]
 		switch {
 		case id.Age >= 3:
-			w.tl[i] = oldTimeline(prev, invEpochs[i])
+			w.tl[i] = oldTimeline(E, prev, invEpochs[i])
 		default:
 			b := E - id.Age
 			tl := make([]state.IdentityState, E+1)
@@ -569,7 +588,7 @@ func (w *world) scoreOfCoef(c int) decimal.Decimal {
 }
 
 func (w *world) inject(height uint64, epoch int) *epochIn {
-	in := &epochIn{epoch: uint16(epoch), cands: map[int]ceremony.VerifCandidateResult{}, measure: epoch == E}
+	in := &epochIn{epoch: uint16(epoch), cands: map[int]ceremony.VerifCandidateResult{}, measure: epoch == w.E}
 	cs := w.cs
 	for i := 1; i <= w.n; i++ {
 		cur := w.tl[i][epoch]
@@ -578,10 +597,10 @@ func (w *world) inject(height uint64, epoch int) *epochIn {
 		}
 		id := cs.Ids[i-1]
 		c := ceremony.VerifCandidateResult{Addr: w.w.Addrs[i], ShortFlipPoint: 6, ShortQualifiedFlipsCount: 6, Participated: true}
-		if epoch == E {
+		if epoch == w.E {
 			c.State, c.Missed = uint8(stOf[id.New]), id.Missed
 		} else {
-			if cur == state.Candidate && E-id.Age != epoch {
+			if cur == state.Candidate && w.E-id.Age != epoch {
 				continue // a candidate of the genesis state waits for the epoch that gives it its age
 			}
 			next := w.tl[i][epoch+1]
@@ -593,7 +612,7 @@ func (w *world) inject(height uint64, epoch int) *epochIn {
 		}
 		in.cands[i] = c
 	}
-	if epoch == E {
+	if epoch == w.E {
 		for i := 1; i <= w.n; i++ {
 			id := cs.Ids[i-1]
 			for k := 0; k < id.Good; k++ {
@@ -668,26 +687,22 @@ func (w *world) inject(height uint64, epoch int) *epochIn {
 // runEpoch drives one whole epoch: its transactions, the ceremony periods, the epoch block
 func (w *world) runEpoch(epoch int) bool {
 	cs := w.cs
-	var plan [][]*types.Transaction
-	add := func(at int, tx *types.Transaction) {
-		for len(plan) <= at {
-			plan = append(plan, nil)
-		}
-		plan[at] = append(plan[at], tx)
-	}
 	// built lazily, block by block (nonces depend on what was included before)
 	type job struct {
 		at int
 		mk func() *types.Transaction
 	}
 	var jobs []job
-	first := 1 + w.rnd.Intn(4)
+	first := 1 + w.rnd.Intn(3)
 	for i := 1; i <= w.n; i++ {
 		id := cs.Ids[i-1]
 		i := i
 		if w.birth[i] == epoch {
 			inv := id.Inviter
-			at := first + w.rnd.Intn(6)
+			at := first + w.rnd.Intn(4)
+			if epoch == w.E {
+				at = first + w.rnd.Intn(10) // early or late in the epoch: the age of the invitation inside the epoch weighs the reward
+			}
 			jobs = append(jobs, job{at, func() *types.Transaction {
 				to := w.w.Addrs[i]
 				w.stats.invites++
@@ -704,10 +719,10 @@ func (w *world) runEpoch(epoch int) bool {
 				}})
 			}
 		}
-		if epoch == E && id.Deleg && i != w.pool {
+		if epoch == w.E && id.Deleg && i != w.pool {
 			at := first + w.rnd.Intn(3)
 			if w.birth[i] == epoch {
-				at = first + 9
+				at = first + 12
 			}
 			jobs = append(jobs, job{at, func() *types.Transaction {
 				to := w.w.Addrs[w.pool]
@@ -716,9 +731,10 @@ func (w *world) runEpoch(epoch int) bool {
 			}})
 		}
 	}
-	nWork := first + 14 + w.rnd.Intn(12)
-	_ = add
-	_ = plan
+	nWork := first + 7
+	if epoch == w.E {
+		nWork = first + 17 + w.rnd.Intn(14)
+	}
 	for b := 0; ; b++ {
 		st := w.prop.n.App.State
 		nv := st.NextValidationTime().Unix()
@@ -833,7 +849,7 @@ func (w *world) record(in *epochIn, height uint64, blk *types.Block, pre *sim.Le
 			case id.Age == 0:
 				ageOk = p0.State == state.Candidate
 			case id.Age < 3:
-				ageOk = int(p0.Birthday) == E-id.Age
+				ageOk = int(p0.Birthday) == w.E-id.Age
 			default:
 				ageOk = int(p0.Birthday) == 0
 			}
@@ -939,7 +955,7 @@ func runCase(seed int64, hid int, cs *caseSpec, out *tr.W, st *runStats) {
 	defer w.close()
 	out.Emit(tr.M{"ev": "World", "hid": hid, "case": cs.Id, "src": cs.Src, "upg": cs.Upg, "n": w.n, "pool": w.pool, "spec": cs})
 	st.cases++
-	for e := 0; e <= E; e++ {
+	for e := 0; e <= w.E; e++ {
 		if !w.runEpoch(e) {
 			out.Emit(tr.M{"ev": "Dead", "hid": hid, "case": cs.Id, "e": e, "why": w.dead})
 			fmt.Fprintf(os.Stderr, "case %d (world %d) stopped in epoch %d: %s\n", cs.Id, hid, e, w.dead)
@@ -953,6 +969,11 @@ func main() {
 	outPath := flag.String("out", "rewards.ndjson", "trace file")
 	first := flag.Int("first", 0, "id of the first world")
 	flag.Parse()
+	if pf := os.Getenv("VERIF_CPUPROFILE"); pf != "" {
+		f, _ := os.Create(pf)
+		pprof.StartCPUProfile(f)
+		defer pprof.StopCPUProfile()
+	}
 	seed := tr.Seed()
 	out := tr.Create(*outPath)
 	defer out.Close()
